@@ -41,6 +41,18 @@ SEEDS = {
              needs="a program handing a secret/local key to a serde serializer (Display/Debug probes alone do not see it)", caught_by=["C18 quick (catalogue class key-serde)"], missed_by_initially=[]),
  "C19": dict(property="C19", summary="paseto-v1 pie_wrap uses Mac::finalize_reset, which needs hmac's `reset` feature that only the pke feature enables",
              needs="a paseto-v1 feature selection containing pie-wrap but not pke", caught_by=["C19 quick (all 45 closures of paseto-v1 are checked)"], missed_by_initially=[]),
+ "C01b": dict(property="C01", summary="paseto-v4 preauth_secret (signing side) writes the header piece as version, purpose, SUFFIX while verify and Display use version, SUFFIX, purpose",
+             needs="a Payload type with a non-empty SUFFIX, purpose public, back end paseto-v4", caught_by=["C01 quick after strengthening (payload-encoding suffix dimension: RawS with SUFFIX \".x1\")"], missed_by_initially=["every harness payload type had SUFFIX \"\""]),
+ "C02b": dict(property="C02", summary="paseto-v4-sodium preauth_public signs the constant b\"v4.public.\" instead of version+SUFFIX+purpose: the encoding suffix in the header is no longer authenticated",
+             needs="two Payload types with different SUFFIX and a header rewritten from one to the other", caught_by=["C02 quick after strengthening (c02.encoding-relabel)"], missed_by_initially=["no suffix dimension"]),
+ "C03b": dict(property="C03", summary="paseto-v2/v4 Clone for SecretKey goes through ExpandedSecretKey::from_bytes, which clamps the already reduced scalar again: a CLONED key signs with a different scalar",
+             needs="signing with a clone of the secret key", caught_by=["C03 quick after strengthening (signing key variants: parsed / clone / clone of clone)", "C08 quick and C17 quick caught it as first built"], missed_by_initially=["C03 never cloned keys"]),
+ "C04b": dict(property="C04", summary="TimeWithLeeway applies the leeway to the claim (exp + leeway, nbf - leeway) instead of to now: jiff's Timestamp arithmetic panics for claims within a leeway of the range edge",
+             needs="an authentic token whose exp is within the leeway of Timestamp::MAX (a 'never expires' token) unsealed with a leeway validator", caught_by=["C04 quick after strengthening (c04.validators: claims anywhere in jiff's range, incl. MIN/MAX +- k*leeway)"], missed_by_initially=["C04 only used NoValidation; C11 kept claims near now"]),
+ "C05b": dict(property="C05", summary="paseto-v3 pw_unwrap_key refuses more than 1,000,000 iterations ('DoS guard') while wrap accepts any count",
+             needs="password-wrap parameters above one million PBKDF2 iterations", caught_by=["C05 quick after strengthening (pbkw-high-cost: one case per back end above 10^6 iterations / 64-192 MiB)"], missed_by_initially=["parameters were bounded at 10^4 iterations"]),
+ "C06b": dict(property="C06", summary="paseto-v4-sodium unseal_key splits the blob from the back, leaving a variable-length tag compared with libsodium's min-length compare()",
+             needs="a k4.seal blob with the tag truncated/removed or bytes inserted after the tag", caught_by=["C06 quick (truncate-front / extend at field boundaries)"], missed_by_initially=[]),
 }
 for sid, m in SEEDS.items():
     d = f"/verif/seeded/{sid}"
